@@ -700,8 +700,8 @@ FAMILIES = {
     "odp-entity-many-references": (f_odp_entity_refs, [500, 1_500, 3_500], "count"),
     "odg-entity-many-references": (f_odg_entity_refs, [500, 1_500, 3_500], "count"),
     "epub-entity-many-references": (f_epub_entity_refs, [500, 1_500, 3_500], "count"),
-    "docx-omml-many-levels-deep": (f_docx_omml_many_levels_deep, [8, 16, 32], "size"),
-    "pptx-omml-many-levels-deep": (f_pptx_omml_many_levels_deep, [8, 16, 32], "size"),
+    "docx-omml-many-levels-deep": (f_docx_omml_many_levels_deep, [8, 16, 24], "size"),
+    "pptx-omml-many-levels-deep": (f_pptx_omml_many_levels_deep, [8, 16, 24], "size"),
     "html-head-many-meta-fragments": (f_html_head_many_meta_fragments, [60_000, 120_000, 240_000], "size"),
     "mhtml-head-many-meta-fragments": (f_mhtml_head_many_meta_fragments, [60_000, 120_000, 240_000], "size"),
     "html-deep-divs": (f_html_deep_divs, [200, 400, 800, 1600], "size"),
@@ -724,7 +724,7 @@ FAMILIES = {
     "ppt-nested-slide-lists": (f_ppt_nested_slide_lists, [250, 500, 1_000, 2_000], "size"),
     "zip-many-small-members": (f_zip_many_small_members, [500, 2_000, 8_000], "size"),
     "tar-many-small-members": (f_tar_many_small_members, [500, 2_000, 8_000], "size"),
-    "xlsx-many-sheets": (f_xlsx_many_sheets, [400, 800, 1_600], "size"),
+    "xlsx-many-sheets": (f_xlsx_many_sheets, [150, 600, 2_400], "size"),
     "pptx-many-slides": (f_pptx_many_slides, [125, 500, 2_000], "size"),
     "docx-many-paragraphs": (f_docx_many_paragraphs, [2_500, 10_000, 40_000], "size"),
     "docx-many-tables": (f_docx_many_tables, [750, 3_000, 12_000], "size"),
